@@ -179,4 +179,103 @@ def pegTopN (fuel : Nat) (ne : NEnv) (g : NGram) : SOut :=
   (pegN fuel ne g ⟨0, []⟩ .unit).andThen fun v s1 e1 =>
     (peg fuel ne.base .end_ s1 .unit).andThen fun _ s2 e2 => .ok v s2 (e1 ++ e2)
 
+/-! ### `nested_in` anywhere in a grammar
+
+  The two-level language above puts a nested parse under a handful of glue combinators. The general situation —
+  `a.nested_in(b)` at any position of any grammar (inside repetitions, under recovery, labelled, in a recursive definition),
+  with `a` itself free to contain nested parses — is obtained as for Pratt parsers: inside `a`, `b` and the surrounding
+  grammar the reference `.call hole` *is* `a.nested_in(b)`. `runH` is the ordinary `step` with itself as the open-recursion
+  runner and `NestedIn::go` (`nestedStepM`) at the hole; the inner environment replaces the token list and the span
+  function, nothing else. -/
+
+structure HEnv where
+  hole : Nat
+  a : G
+  b : G
+  groups : List (Nat × List Nat)
+  gap : Nat
+  deriving Repr, Inhabited
+
+def HEnv.isHole (h : HEnv) : G → Bool
+  | .call k => k == h.hole
+  | _ => false
+
+def HEnv.ne (h : HEnv) (env : Env) : NEnv := { base := env, groups := h.groups, gap := h.gap }
+def HEnv.kidsOf (h : HEnv) (v : Val) : Option (List Nat) := (h.ne default).kidsOf v
+def HEnv.innerEnv (h : HEnv) (env : Env) (kids : List Nat) : Env := ((h.ne env).inner kids).base
+
+/-- `NestedIn::go` over an arbitrary runner -/
+def nestedStepM (R : Runner) (h : HEnv) (env : Env) (m : Mode) (st : St) : Out :=
+  match R env .emit h.b st with
+  | .fail st1 => .fail st1
+  | .panic w => .panic w
+  | .oof => .oof
+  | .ok vb st1 =>
+    match h.kidsOf vb with
+    | none => .panic pNotGroup
+    | some kids =>
+      let ei := h.innerEnv env kids
+      let inner0 : St := { pos := 0, errs := [], alt := none, insp := st1.insp, ctx := st1.ctx, memo := [], log := [] }
+      match innerThenEndM (R ei m h.a inner0) (fun si1 => R ei .check .end_ si1) with
+      | .ok va si => .ok va (nestedMerge env st1 si)
+      | .fail si => .fail (nestedMerge env st1 si)
+      | .panic w => .panic w
+      | .oof => .oof
+
+/-- its reading over an arbitrary reading of the sub-parsers -/
+def nestedStepS (P : SRunner) (h : HEnv) (env : Env) (s : SS) (ctx : Val) : SOut :=
+  (P env h.b s ctx).andThen fun vb s1 e1 =>
+    match h.kidsOf vb with
+    | none => .panic pNotGroup
+    | some kids =>
+      let ei := h.innerEnv env kids
+      match innerThenEndS (P ei h.a ⟨0, s1.insp⟩ ctx) (fun si1 => P ei .end_ si1 ctx) with
+      | .ok va si e2 => .ok va ⟨s1.pos, si.insp⟩ (e1 ++ rehomeEm s1.pos e2)
+      | .fail => .fail
+      | .panic w => .panic w
+      | .oof => .oof
+
+mutual
+def runH (h : HEnv) : Nat → Runner
+  | 0 => fun _ _ _ _ => .oof
+  | n + 1 => fun env m g st =>
+    if h.isHole g then nestedStepM (runH h n) h env m st
+    else step (runH h n) (nextH h n) (mkIterH h n) n env m g st
+def nextH (h : HEnv) : Nat → NextRunner
+  | 0 => fun _ _ _ _ _ => .oof
+  | n + 1 => stepNext (runH h n) (nextH h n) (mkIterH h n)
+def mkIterH (h : HEnv) : Nat → MkRunner
+  | 0 => fun _ _ _ _ => .oof
+  | n + 1 => stepMk (runH h n) (mkIterH h n)
+end
+
+mutual
+def pegH (h : HEnv) : Nat → SRunner
+  | 0 => fun _ _ _ _ => .oof
+  | n + 1 => fun env g s ctx =>
+    if h.isHole g then nestedStepS (pegH h n) h env s ctx
+    else pegStep (pegH h n) (pegNextH h n) (pegMkH h n) n env g s ctx
+def pegNextH (h : HEnv) : Nat → SNextRunner
+  | 0 => fun _ _ _ _ _ => .oof
+  | n + 1 => pegNext (pegH h n) (pegNextH h n) (pegMkH h n)
+def pegMkH (h : HEnv) : Nat → SMkRunner
+  | 0 => fun _ _ _ _ => .oof
+  | n + 1 => pegMk (pegH h n) (pegMkH h n)
+end
+
+/-- `parse` / `check` of a grammar `g` that may mention the nested parse -/
+def parseTopH (h : HEnv) (fuel : Nat) (env : Env) (m : Mode) (g : G) : TopOut :=
+  match runH h fuel env m (.thenIgnore g .end_) St.init with
+  | .panic w => .panic w
+  | .oof => .oof
+  | .ok v st => .result ⟨some v, st.errs.map (·.err)⟩ st
+  | .fail st =>
+    let alt := match st.alt with
+      | some a => a.err
+      | none => env.ek.expectedFound [] none (env.mkSpan st.pos st.pos)
+    .result ⟨none, st.errs.map (·.err) ++ [alt]⟩ st
+
+def pegTopH (h : HEnv) (fuel : Nat) (env : Env) (g : G) : SOut :=
+  pegH h fuel env (.thenIgnore g .end_) ⟨0, []⟩ .unit
+
 end Chumsky
